@@ -18,6 +18,15 @@ let b = a * a - a;
 let c = [a, b, a + b, -a].map((x: int) -> {{x * 3 + 1}}).to_array();
 fn main()->int {{ let d = b / 7; (a + b + d.floor()) % 1000003 }}
 """),
+            # payloads that only count when measured in bytes / limbs: long non-ASCII strings, integers of many limbs
+            ("wide%d" % v, f"""
+let u = "é中😀" * {k * 6};
+let w = u + u.upper() + "x" * 3;
+let n1 = 2 ** 1000 + 12345;
+let n2 = n1 * n1 - n1;
+let ns = [n1, n2, -n1, n1 + n2];
+fn main()->int {{ let z = [u, w, w + u].map((x: str) -> {{x.len()}}).to_array(); let q = ns.map((x: int) -> {{x * 3 + 1}}).to_array(); z.sum() + (q.get(1) % 1000003) }}
+"""),
             ("strs%d" % v, f"""
 let s = "abc" * {k};
 let t = s + "é中" + s.upper();
